@@ -294,8 +294,13 @@ func (g *pomGen) shapedTarget(lit string) string {
 	}
 	v := b.String()
 	switch rapid.IntRange(0, 9).Draw(g.t, "to_shape") {
+	case 6:
+		// nothing left for the properties: exactly the literal parts
+		if bare := strings.Join(lits, ""); trimSeps(bare) != "" {
+			return bare
+		}
 	case 7:
-		// nothing left for the properties
+		// nothing left for the properties, separators tidied up (1.${p}.0 -> 1.0)
 		if bare := trimSeps(strings.Join(lits, "")); bare != "" {
 			return strings.ReplaceAll(strings.ReplaceAll(bare, "..", "."), "--", "-")
 		}
